@@ -51,6 +51,21 @@ func catalogue(tier string) []cfg {
 				}
 			}
 		}
+		// ciphertext in the domain the parameters do not use by default: every level, both parameter flags
+		for _, ch := range []mp.Chain{mp.ChainMid, mp.ChainMixed, mp.ChainMidCI} {
+			for lin := 0; lin < len(ch.QBits); lin++ {
+				for _, ntt := range []bool{true, false} {
+					for _, n := range []int{1, 2, 3} {
+						if ch.Name != "mid" && n == 2 {
+							continue
+						}
+						r = append(r, full(cfg{proto: proto, chain: ch, ntt: ntt, n: n, lin: lin, sigma: sigmas[(lin+n)%3], ctFlip: true}))
+					}
+				}
+			}
+		}
+		r = append(r, ld(cfg{proto: proto, chain: mp.ChainMid, ntt: true, lin: 1, ctFlip: true}, 5, 2))
+		r = append(r, ld(cfg{proto: proto, chain: mp.ChainMid, ntt: false, lin: 2, sigma: 1 << 10, ctFlip: true}, 8, 2))
 		// 5..8 parties: left-deep orders within 2 (quick) / 3 (thorough) departures from index order
 		b := 2
 		if th {
